@@ -508,7 +508,7 @@ Fixpoint wrap_up (along : rpos) (i : nat) (n : node) : res node :=
   | S i' => do a <- rp_node along i'; wrap_up along i' (node_copy a [n])
   end.
 
-Definition prepare_slice (sl : slice) (along : rpos) : res (rpos * rpos) :=
+Definition prepare_slice0 (sl : slice) (along : rpos) : res (rpos * rpos) :=
   let extra := rp_depth along - sl_open_start sl in
   do parent <- rp_node along extra;
   do n <- wrap_up along extra (node_copy parent (sl_content sl));
@@ -517,6 +517,14 @@ Definition prepare_slice (sl : slice) (along : rpos) : res (rpos * rpos) :=
   do st <- resolve n (sl_open_start sl + extra);
   do en <- resolve n (size - sl_open_end sl - extra);
   Ok (st, en).
+(* the slice must really be as open as it claims: both resolved positions sit at the depths the open sides
+   promise (ReplaceError otherwise) *)
+Definition prepare_slice (sl : slice) (along : rpos) : res (rpos * rpos) :=
+  do se <- prepare_slice0 sl along;
+  let '(st, en) := se in
+  if negb (rp_depth st =? rp_depth along)
+     || negb (rp_depth en =? sl_open_end sl + (rp_depth along - sl_open_start sl))
+  then Err ErrReplace else Ok (st, en).
 
 Fixpoint replace_outer (fuel : nat) (from to : rpos) (sl : slice) (depth : nat) : res node :=
   match fuel with
